@@ -165,6 +165,9 @@ struct World
 
 extern World* g_world;
 extern std::string g_trace_path;
+// set while the world is being torn down after `Q`: destructors still run (under the sanitizers),
+// but what they make probes / droppers see is not part of the trace
+extern bool g_teardown;
 
 } // namespace simdrv
 
